@@ -48,7 +48,7 @@ func c15Run(ctx *core.Ctx) {
 	core.RunCases(ctx, func(emit func(c15Case)) {
 		for a := 0; a < 128; a++ {
 			for mm := 0; mm < 64; mm++ {
-				if !ctx.Thorough() && (a*31+mm*7)%16 != 0 && !(mm == 63 || mm == 0 || a == 0 || a == 127) {
+				if !ctx.Thorough() && (a*31+mm*7)%4 != 0 && !(mm == 63 || mm == 0 || a == 0 || a == 127) {
 					continue
 				}
 				emit(c15Case{Kind: "params", AdvA: a, AdvB: (a*37 + mm*11 + 5) % 128, MailM: mm, RcptM: (a + mm) % 8})
